@@ -6,6 +6,334 @@ import TrustfallModel.Proofs.Hints
 import TrustfallModel.Proofs.HintsSound
 
 namespace TF.Engine
-open TF
+open TF Filter
+
+theorem R.toOption_eq_some {α : Type} {r : R α} {a : α} : r.toOption = some a ↔ r = .ok a := by
+  cases r <;> simp [R.toOption]
+
+/-- Splitting a successful homomorphic stage over an append. -/
+theorem Hom.split_ok {α β : Type} {S : List α → R (List β)} (hS : Hom S) {xs ys : List α} {out : List β}
+    (h : S (xs ++ ys) = .ok out) : ∃ a b, S xs = .ok a ∧ S ys = .ok b ∧ out = a ++ b := by
+  have := hS xs ys
+  rw [h] at this
+  cases hx : S xs with
+  | ok a =>
+    cases hy : S ys with
+    | ok b => rw [hx, hy] at this; simp at this; exact ⟨a, b, rfl, rfl, this⟩
+    | panic s => rw [hx, hy] at this; simp at this
+    | fuel => rw [hx, hy] at this; simp at this
+  | panic s => rw [hx] at this; simp at this
+  | fuel => rw [hx] at this; simp at this
+
+theorem Hom.join_ok {α β : Type} {S : List α → R (List β)} (hS : Hom S) {xs ys : List α} {a b : List β}
+    (hx : S xs = .ok a) (hy : S ys = .ok b) : S (xs ++ ys) = .ok (a ++ b) := by
+  have := hS xs ys
+  rw [hx, hy] at this
+  exact R.toOption_eq_some.mp (by simpa using this)
+
+theorem Hom.nil_ok {α β : Type} {S : List α → R (List β)} (hS : Hom S) {out : List β}
+    (h : S [] = .ok out) : out = [] := by
+  obtain ⟨a, b, ha, hb, hab⟩ := hS.split_ok (xs := []) (ys := []) (by simpa using h)
+  rw [h] at ha hb; cases ha; cases hb
+  have : out.length = out.length + out.length := by rw [← List.length_append, ← hab]
+  exact List.eq_nil_of_length_eq_zero (by omega)
+
+/-- Dropping, before a homomorphic stage, inputs that the stage maps to nothing. -/
+theorem Hom.filter_ok {α β : Type} {S : List α → R (List β)} (hS : Hom S) (keep : α → Bool)
+    (l : List α) (out : List β) (h : S l = .ok out)
+    (hdrop : ∀ x ∈ l, keep x = false → ∀ o, S [x] = .ok o → o = []) :
+    S (l.filter keep) = .ok out := by
+  induction l generalizing out with
+  | nil => simpa using h
+  | cons x xs ih =>
+    obtain ⟨a, b, ha, hb, hab⟩ := hS.split_ok (xs := [x]) (ys := xs) (by simpa using h)
+    have ih' := ih b hb (fun y hy => hdrop y (by simp [hy]))
+    cases hk : keep x with
+    | true =>
+      simp only [List.filter_cons, hk, ↓reduceIte]
+      have := hS.join_ok ha ih'
+      simpa [hab] using this
+    | false =>
+      simp only [List.filter_cons, hk, Bool.false_eq_true, ↓reduceIte]
+      have : a = [] := hdrop x (by simp) hk a ha
+      subst this; simpa [hab] using ih'
+
+@[simp] theorem R.monad_bind {α β : Type} (x : R α) (f : α → R β) : (x >>= f) = x.bind f := rfl
+@[simp] theorem R.monad_pure {α : Type} (a : α) : (pure a : R α) = .ok a := rfl
+@[simp] theorem R.bind_panic' {α β : Type} (s : String) (f : α → R β) : (R.panic s : R α).bind f = .panic s := rfl
+@[simp] theorem R.bind_fuel' {α β : Type} (f : α → R β) : (R.fuel : R α).bind f = .fuel := rfl
+
+theorem popValue_pushValue (c : Ctx) (v : Value) : (c.pushValue v).popValue = .ok (v, c) := rfl
+
+theorem envArg_lookup {D : Data} {args : List (Name × Value)} {n : Name} {a : Value}
+    (h : (Env.ofData D args).arg n = .ok a) : lookupArg args n = .ok a := by
+  simp only [Env.arg, Env.ofData, lookupArg] at h ⊢
+  cases hf : args.find? (·.1 == n) with
+  | none => simp [hf] at h
+  | some pr => simpa [hf] using h
+
+section single
+variable (D : Data) (args : List (Name × Value))
+
+/-- One local filter on one context with an active vertex: the context is dropped or passes
+unchanged, and in the latter case the engine's verdict is the static verdict. -/
+theorem applyLocalFieldFilter_single (comp : Component) (vid : Vid) (f : IRFilter) (c : Ctx)
+    (x : VertexId) (hc : c.active = some x) (l' : List Ctx)
+    (h : applyLocalFieldFilter (Env.ofData D args) comp vid f [c] = .ok l') :
+    l' = [] ∨ (l' = [c] ∧ ∀ field, filterSubject f = some field →
+      StaticFilterPasses D.regex args f (D.prop x field)) := by
+  obtain ⟨op, left, right⟩ := f
+  cases left with
+  | count => simp [applyLocalFieldFilter] at h
+  | loc field ty =>
+    simp only [applyLocalFieldFilter] at h
+    obtain ⟨t, ht, h⟩ := R_bind_ok h
+    have hcl : computeLocalField (Env.ofData D args) vid t field [c] = .ok [c.pushValue (D.prop x field)] := by
+      simp [computeLocalField, mapR, Env.ofData, Data.adapter, hc, Data.propOpt]
+    rw [hcl] at h
+    simp only [R.bind_ok] at h
+    have hsub : ∀ fld, filterSubject ⟨op, .loc field ty, right⟩ = some fld → fld = field := by
+      intro fld hf; simpa [filterSubject] using hf.symm
+    cases op with
+    | un o =>
+      simp only [applyFilter, filterMapR, R.monad_bind, R.monad_pure, popValue_pushValue, R.bind_ok,
+        hc, Option.isNone_some, Bool.false_or] at h
+      cases hu : applyUnary o (D.prop x field) with
+      | true =>
+        right
+        simp [hu] at h
+        refine ⟨h.symm, fun fld hf => ?_⟩
+        rw [hsub fld hf]; simpa [StaticFilterPasses] using hu
+      | false => left; simp [hu] at h; exact h
+    | bin o =>
+      cases right with
+      | none => simp [applyFilter] at h
+      | some a =>
+        cases a with
+        | var n vt =>
+          simp only [applyFilter] at h
+          obtain ⟨rv, hrv, h⟩ := R_bind_ok h
+          obtain ⟨u, hu, h⟩ := R_bind_ok h
+          simp only [filterMapR, R.monad_bind, R.monad_pure, popValue_pushValue, R.bind_ok,
+            hc, Option.isNone_some, Bool.false_eq_true, ↓reduceIte] at h
+          cases hb : applyStatic (Env.ofData D args).regex o (D.prop x field) rv with
+          | panic => simp [hb, R.ofOutcome] at h
+          | ok b =>
+            cases b with
+            | false => left; simp [hb, R.ofOutcome] at h; exact h
+            | true =>
+              right
+              simp [hb, R.ofOutcome] at h
+              refine ⟨h.symm, fun fld hf => ?_⟩
+              rw [hsub fld hf]
+              exact ⟨rv, envArg_lookup hrv, hb⟩
+        | tag r =>
+          simp only [applyFilter, filterMapR, R.monad_bind, R.monad_pure] at h
+          cases htv : tagValue (Env.ofData D args) comp vid r (c.pushValue (D.prop x field)) with
+          | panic s => simp [htv] at h
+          | fuel => simp [htv] at h
+          | ok tg =>
+            simp only [htv, popValue_pushValue, R.bind_ok] at h
+            have hP : ∀ fld, filterSubject ⟨.bin o, .loc field ty, some (.tag r)⟩ = some fld →
+                StaticFilterPasses D.regex args ⟨.bin o, .loc field ty, some (.tag r)⟩ (D.prop x fld) :=
+              fun _ _ => trivial
+            cases tg with
+            | nonexistent => right; simp at h; exact ⟨h.symm, hP⟩
+            | some rv =>
+              simp only [hc, Option.isNone_some, Bool.false_eq_true, ↓reduceIte] at h
+              cases hb : applyTagged (Env.ofData D args).regex o (D.prop x field) rv with
+              | panic => simp [hb, R.ofOutcome] at h
+              | ok b =>
+                cases b with
+                | false => left; simp [hb, R.ofOutcome] at h; exact h
+                | true => right; simp [hb, R.ofOutcome] at h; exact ⟨h.symm, hP⟩
+
+theorem applyLocalFilters_nil (env : Env) (comp : Component) (vid : Vid) (fs : List IRFilter)
+    (l' : List Ctx) (h : applyLocalFilters env comp vid fs [] = .ok l') : l' = [] :=
+  (applyLocalFilters_hom env comp vid fs).nil_ok h
+
+theorem applyLocalFilters_single (comp : Component) (vid : Vid) (fs : List IRFilter) (c : Ctx)
+    (x : VertexId) (hc : c.active = some x) (l' : List Ctx)
+    (h : applyLocalFilters (Env.ofData D args) comp vid fs [c] = .ok l') :
+    l' = [] ∨ (l' = [c] ∧ ∀ f ∈ fs, ∀ field, filterSubject f = some field →
+      StaticFilterPasses D.regex args f (D.prop x field)) := by
+  induction fs generalizing l' with
+  | nil => simp [applyLocalFilters] at h; right; exact ⟨h.symm, by simp⟩
+  | cons f fs ih =>
+    simp only [applyLocalFilters] at h
+    obtain ⟨l1, h1, h⟩ := R_bind_ok h
+    rcases applyLocalFieldFilter_single D args comp vid f c x hc l1 h1 with rfl | ⟨rfl, hf⟩
+    · left; exact applyLocalFilters_nil _ comp vid fs l' h
+    · rcases ih l' h with rfl | ⟨rfl, hfs⟩
+      · left; rfl
+      · right
+        refine ⟨rfl, ?_⟩
+        intro g hg
+        rcases List.mem_cons.mp hg with rfl | hg
+        · exact hf
+        · exact hfs g hg
+
+/-- A context that survives the entry into vertex `v` has passed every static filter of `v`. -/
+theorem enterVertex_single (comp : Component) (v : IRVertex) (c : Ctx) (x : VertexId)
+    (hc : c.active = some x) (o : List Ctx)
+    (h : enterVertex (Env.ofData D args) comp v [c] = .ok o) (hne : o ≠ []) :
+    ∀ f ∈ v.filters, ∀ field, filterSubject f = some field →
+      StaticFilterPasses D.regex args f (D.prop x field) := by
+  unfold enterVertex at h
+  obtain ⟨l1, h1, h⟩ := R_bind_ok h
+  obtain ⟨l2, h2, h⟩ := R_bind_ok h
+  have hl1 : l1 = [] ∨ l1 = [c] := by
+    unfold coerceIfNeeded at h1
+    split at h1
+    · right; simpa using h1.symm
+    · simp only [filterMapR, R.monad_bind, R.monad_pure] at h1
+      cases hco : (Env.ofData D args).adapter.coerce v.vid _ v.typeName c.active with
+      | ok b =>
+        rw [hco] at h1
+        simp only [R.bind_ok, hc, Option.isNone_some, Bool.or_false] at h1
+        cases b <;> simp at h1
+        · left; exact h1
+        · right; exact h1.symm
+      | panic s => rw [hco] at h1; simp at h1
+      | fuel => rw [hco] at h1; simp at h1
+  rcases hl1 with rfl | rfl
+  · have := applyLocalFilters_nil _ comp v.vid v.filters l2 h2
+    subst this
+    simp [mapR] at h; exact absurd h hne
+  · rcases applyLocalFilters_single D args comp v.vid v.filters c x hc l2 h2 with rfl | ⟨rfl, hf⟩
+    · simp [mapR] at h; exact absurd h hne
+    · exact hf
+
+end single
+
+
+
+theorem allR_false {α : Type} {f : α → R Bool} {l : List α} (h : allR f l = .ok false) :
+    ∃ x ∈ l, f x = .ok false := by
+  induction l with
+  | nil => simp [allR] at h
+  | cons x xs ih =>
+    simp only [allR] at h
+    obtain ⟨b, hb, h⟩ := R_bind_ok h
+    cases b with
+    | true =>
+      simp at h
+      obtain ⟨y, hy, hfy⟩ := ih h
+      exact ⟨y, by simp [hy], hfy⟩
+    | false => exact ⟨x, by simp, hb⟩
+
+/-- A property the schema declares non-nullable is not null on data vertex `x` (for the filtered
+properties of IR vertex `v`). -/
+def NonNullOk (D : Data) (v : IRVertex) (x : VertexId) : Prop :=
+  ∀ f ∈ v.filters, ∀ p, filterSubject f = some p → subjectNullable f = false →
+    Cand.isNull (D.prop x p) = false
+
+/-- **The pruning step is invisible at the entry into the vertex.**  If the static hints of `i`
+reject data vertex `x`, a context whose active vertex is `x` does not survive the entry into the
+IR vertex the hints describe. -/
+theorem enterVertex_dropped (ir : IRQuery) (D : Data) (args : List (Name × Value)) (i : VInfo)
+    (comp comp' : Component) (v : IRVertex) (c : Ctx) (x : VertexId) (o : List Ctx)
+    (hl : locate ir i.vid = some (comp', v))
+    (hp : passesStatic ir args D i x = .ok false)
+    (hnn : NonNullOk D v x) (hc : c.active = some x)
+    (h : enterVertex (Env.ofData D args) comp v [c] = .ok o) : o = [] := by
+  by_cases hne : o = []
+  · exact hne
+  · exfalso
+    have hf := enterVertex_single D args comp v c x hc o h hne
+    simp only [passesStatic, hl] at hp
+    obtain ⟨p, _, hp⟩ := allR_false hp
+    obtain ⟨oc, hoc, hg⟩ := R_map_ok hp
+    cases oc with
+    | none => simp at hg
+    | some cand =>
+      simp only at hg
+      have := (staticallyRequired_sound D.regex args i v p (D.prop x p) cand hoc
+        (fun f hfm hs => hf f hfm p hs) (fun f hfm hs hn => hnn f hfm p hs hn)).1
+      rw [this] at hg; cases hg
+
+
+theorem find?_of_nodup_map {α : Type} (key : α → Nat) {l : List α} {a : α}
+    (hn : (l.map key).Nodup) (ha : a ∈ l) : l.find? (fun b => key b == key a) = some a := by
+  induction l with
+  | nil => simp at ha
+  | cons w ws ih =>
+    simp only [List.map_cons, List.nodup_cons, List.mem_map, not_exists, not_and] at hn
+    rcases List.mem_cons.mp ha with h | h
+    · subst h; simp
+    · have hne : ¬ (key w = key a) := fun heq => hn.1 a h heq.symm
+      have hb : (key w == key a) = false := by simpa using hne
+      simp only [List.find?_cons, hb]
+      exact ih hn.2 h
+
+theorem find?_none_of_not_mem_map {α : Type} (key : α → Nat) {l : List α} {k : Nat}
+    (h : k ∉ l.map key) : l.find? (fun b => key b == k) = none := by
+  simp only [List.find?_eq_none, beq_iff_eq]
+  intro w hw heq
+  exact h (by simp only [List.mem_map]; exact ⟨w, hw, heq⟩)
+
+/-- No Eid occurs twice in the query (`IndexedQuery::try_from` refuses anything else). -/
+def EidsDistinct (ir : IRQuery) : Prop := (allEids ir).Nodup
+
+instance (ir : IRQuery) : Decidable (EidsDistinct ir) := inferInstanceAs (Decidable (List.Nodup _))
+
+theorem findEdgeIn_edge {l : List Component} {c : Component} {e : IREdge}
+    (hn : (l.flatMap Component.eids).Nodup) (hc : c ∈ l) (he : e ∈ c.edges) :
+    findEdgeIn e.eid l = some (.inl e) := by
+  induction l with
+  | nil => simp at hc
+  | cons c0 rest ih =>
+    simp only [List.flatMap_cons, List.nodup_append] at hn
+    obtain ⟨h0, hr, hdis⟩ := hn
+    rcases List.mem_cons.mp hc with h | h
+    · subst h
+      simp only [Component.eids, List.nodup_append] at h0
+      have : c.edges.find? (fun b => b.eid == e.eid) = some e := find?_of_nodup_map (·.eid) h0.1 he
+      simp [findEdgeIn, this]
+    · have hin : e.eid ∈ rest.flatMap Component.eids := by
+        simp only [List.mem_flatMap]
+        exact ⟨c, h, by simp only [Component.eids, List.mem_append, List.mem_map]; exact Or.inl ⟨e, he, rfl⟩⟩
+      have hnot : e.eid ∉ c0.eids := fun hmem => hdis _ hmem _ hin rfl
+      simp only [Component.eids, List.mem_append, not_or] at hnot
+      have h1 : c0.edges.find? (fun x => x.eid == e.eid) = none := find?_none_of_not_mem_map IREdge.eid hnot.1
+      have h2 : c0.folds.find? (fun x => x.eid == e.eid) = none := find?_none_of_not_mem_map Fold.eid hnot.2
+      simp only [findEdgeIn, h1, h2]
+      exact ih hr h
+
+theorem findEdgeIn_fold {l : List Component} {c : Component} {f : Fold}
+    (hn : (l.flatMap Component.eids).Nodup) (hc : c ∈ l) (hf : f ∈ c.folds) :
+    findEdgeIn f.eid l = some (.inr f) := by
+  induction l with
+  | nil => simp at hc
+  | cons c0 rest ih =>
+    simp only [List.flatMap_cons, List.nodup_append] at hn
+    obtain ⟨h0, hr, hdis⟩ := hn
+    rcases List.mem_cons.mp hc with h | h
+    · subst h
+      simp only [Component.eids, List.nodup_append] at h0
+      have hnot : f.eid ∉ c.edges.map (·.eid) := fun hmem =>
+        h0.2.2 _ hmem _ (by simp only [List.mem_map]; exact ⟨f, hf, rfl⟩) rfl
+      have : c.folds.find? (fun b => b.eid == f.eid) = some f := find?_of_nodup_map (·.eid) h0.2.1 hf
+      have h1 : c.edges.find? (fun x => x.eid == f.eid) = none := find?_none_of_not_mem_map IREdge.eid hnot
+      simp [findEdgeIn, h1, this]
+    · have hin : f.eid ∈ rest.flatMap Component.eids := by
+        simp only [List.mem_flatMap]
+        exact ⟨c, h, by simp only [Component.eids, List.mem_append, List.mem_map]; exact Or.inr ⟨f, hf, rfl⟩⟩
+      have hnot : f.eid ∉ c0.eids := fun hmem => hdis _ hmem _ hin rfl
+      simp only [Component.eids, List.mem_append, not_or] at hnot
+      have h1 : c0.edges.find? (fun x => x.eid == f.eid) = none := find?_none_of_not_mem_map IREdge.eid hnot.1
+      have h2 : c0.folds.find? (fun x => x.eid == f.eid) = none := find?_none_of_not_mem_map Fold.eid hnot.2
+      simp only [findEdgeIn, h1, h2]
+      exact ih hr h
+
+theorem destinationOf_edge {ir : IRQuery} (hd : EidsDistinct ir) {c : Component} {e : IREdge}
+    (hc : c ∈ subComps ir.rootComponent) (he : e ∈ c.edges) :
+    destinationOf ir e.eid = some (VInfo.ofEdge e) := by
+  simp [destinationOf, findEdgeIn_edge hd hc he]
+
+theorem destinationOf_fold {ir : IRQuery} (hd : EidsDistinct ir) {c : Component} {f : Fold}
+    (hc : c ∈ subComps ir.rootComponent) (hf : f ∈ c.folds) :
+    destinationOf ir f.eid = some (VInfo.ofFold f) := by
+  simp [destinationOf, findEdgeIn_fold hd hc hf]
 
 end TF.Engine
